@@ -3,11 +3,11 @@
 # 1. scratch worktree: apply diff, build, full suite (minus examples) must pass, demo must fail; without the diff the demo must pass
 # 2. apply to /repo, run ./check <PID> quick (and extra ids), undo.
 set -u
-PID=$1; X=$2; shift 2; EXTRA="$@"
+WID=$1; X=$2; PID=$3; shift 3; EXTRA="$@"
 export GOFLAGS=-mod=mod GOPROXY=off GOSUMDB=off GOTOOLCHAIN=local
-SRC=/tmp/mut/$PID/out
-VW=/tmp/vw-$PID$X
-OUT=/verif/seeded/$PID-$X
+SRC=/tmp/mut/$WID/out
+VW=/tmp/vw-$WID$X
+OUT=/verif/seeded/$WID-$X
 mkdir -p $OUT
 cp $SRC/mutant-$X.diff $OUT/patch.diff
 cp $SRC/demo_${X}_test.go $OUT/ 2>/dev/null
